@@ -240,8 +240,8 @@ theorem step_inv1 {s s' : State} {x : Inst} {a : Act} (inv : Inv1 s x) (hsc : in
       split at hstep
       · rename_i hc
         injection hstep with hstep; subst hstep
-        refine ⟨{ x with current := t :: x.current, created := t.uri :: x.created }, ?_⟩
-        have := inv1_tables (x' := { x with current := t :: x.current, created := t.uri :: x.created })
+        refine ⟨{ x with current := t :: x.current, created := t.uri :: x.created, made := t.uri :: x.made }, ?_⟩
+        have := inv1_tables (x' := { x with current := t :: x.current, created := t.uri :: x.created, made := t.uri :: x.made })
           (F := .sst t.uri :: s.files) (U := t.uri :: s.used) inv rfl rfl inv.norel
           (fun f hf => List.mem_cons_of_mem _ hf) (fun u hu => List.mem_cons_of_mem _ hu)
           (by
@@ -260,9 +260,9 @@ theorem step_inv1 {s s' : State} {x : Inst} {a : Act} (inv : Inv1 s x) (hsc : in
       · rename_i hc
         injection hstep with hstep; subst hstep
         refine ⟨{ x with current := x.current.filter (fun t => !rm.contains t.uri) ++ add,
-                         created := uris add ++ x.created }, ?_⟩
+                         created := uris add ++ x.created, made := uris add ++ x.made }, ?_⟩
         have := inv1_tables (x' := { x with current := x.current.filter (fun t => !rm.contains t.uri) ++ add,
-                                             created := uris add ++ x.created })
+                                             created := uris add ++ x.created, made := uris add ++ x.made })
           (F := (uris add).map File.sst ++ s.files) (U := uris add ++ s.used) inv rfl rfl inv.norel
           (fun f hf => List.mem_append_right _ hf) (fun u hu => List.mem_append_right _ hu)
           (by
@@ -908,5 +908,262 @@ theorem nextWalId_gt (ws : List Wal) : ∀ w ∈ ws, w.num < nextWalId ws := by
   simp only [nextWalId, Facts.c09NextWalIsMax, beq_self_eq_true, if_true]
   have := (foldl_max_num ws 0).2 w hw
   omega
+
+
+/-! ## who removes a file: one step, then whole histories -/
+
+/-- why a collection may delete the file of table `u` -/
+def CollectJustified (x : Inst) (u : Path) (answers : List Ans) : Prop :=
+  x.unreachable u = true ∧
+    (u ∈ x.created ∨ ∃ t ∈ x.loaded, t.uri = u ∧
+      (Gen.kgContains x.range t.span = true ∨
+        ∀ ra ∈ x.nbrs.zip answers, Gen.kgOverlaps ra.1 t.span = true → ra.2 = .no))
+
+theorem step_removes_sst {s s' : State} {a : Act} {u : Path} (h : step s a = some s')
+    (hin : File.sst u ∈ s.files) (hout : File.sst u ∉ s'.files) :
+    ∃ i answers x, a = .collect i u answers ∧ s.insts[i]? = some x ∧ CollectJustified x u answers := by
+  cases a with
+  | openFresh r g n d => simp only [step] at h; injection h with h; subst h; exact absurd hin hout
+  | openFrom r g n ws id d =>
+    simp only [step] at h
+    split at h
+    · simp at h
+    · simp at h
+    · injection h with h; subst h; exact absurd hin hout
+  | jobDrop k =>
+    simp only [step] at h
+    split at h
+    · injection h with h; subst h; exact absurd hin hout
+    · simp at h
+  | flush i t =>
+    simp only [step] at h
+    split at h
+    · simp at h
+    · split at h
+      · injection h with h; subst h; exact absurd (List.mem_cons_of_mem _ hin) hout
+      · simp at h
+  | compact i rm add =>
+    simp only [step] at h
+    split at h
+    · simp at h
+    · split at h
+      · injection h with h; subst h; exact absurd (List.mem_append_right _ hin) hout
+      · simp at h
+  | ckpt i id wal =>
+    simp only [step] at h
+    split at h
+    · simp at h
+    · split at h
+      · injection h with h; subst h
+        exact absurd (List.mem_cons_of_mem _ (mem_clobber.mpr ⟨hin, by intro v hv; cases hv⟩)) hout
+      · simp at h
+  | retain i ids =>
+    simp only [step] at h
+    split at h
+    · simp at h
+    · split at h
+      · injection h with h; subst h
+        exact absurd (mem_rmWals.mpr ⟨hin, by intro w _ v hv; cases hv⟩) hout
+      · simp at h
+  | snap i =>
+    simp only [step] at h
+    split at h
+    · simp at h
+    · split at h
+      · injection h with h; subst h; exact absurd hin hout
+      · simp at h
+  | unsnap i k =>
+    simp only [step] at h
+    split at h
+    · simp at h
+    · split at h
+      · injection h with h; subst h; exact absurd hin hout
+      · simp at h
+  | crash i =>
+    simp only [step] at h
+    split at h
+    · simp at h
+    · split at h
+      · injection h with h; subst h; exact absurd hin hout
+      · simp at h
+  | release i =>
+    simp only [step] at h
+    split at h
+    · simp at h
+    · split at h
+      · injection h with h; subst h; exact absurd hin hout
+      · simp at h
+  | redeployFailed i =>
+    simp only [step] at h
+    split at h
+    · simp at h
+    · split at h
+      · injection h with h; subst h; exact absurd hin hout
+      · simp at h
+  | collect i v answers =>
+    have hx : ∃ x, s.insts[i]? = some x := by
+      simp only [step] at h
+      split at h
+      · simp at h
+      · rename_i x hx; exact ⟨x, hx⟩
+    obtain ⟨x, hx⟩ := hx
+    obtain ⟨hun, hkeep, _, hwhy⟩ := collect_effect hx h
+    have huv : u = v := by
+      by_cases huv : u = v
+      · exact huv
+      · exact absurd (hkeep _ hin (by intro he; injection he with he; exact huv he)) hout
+    subst huv
+    refine ⟨i, answers, x, rfl, hx, hun, ?_⟩
+    rcases hwhy hin hout with hc | ⟨t, ht, htu, hd⟩
+    · exact Or.inl hc
+    · exact Or.inr ⟨t, ht, htu, decision_delete_cases _ _ _ hd⟩
+
+/-- in any history a table file disappears only through a justified collection of that very table -/
+theorem run_removes_sst {as : List Act} : ∀ {s s' : State} {u : Path}, run s as = some s' →
+    File.sst u ∈ s.files → File.sst u ∉ s'.files →
+    ∃ pre i answers post sm x, as = pre ++ Act.collect i u answers :: post ∧ run s pre = some sm ∧
+      sm.insts[i]? = some x ∧ CollectJustified x u answers := by
+  induction as with
+  | nil => intro s s' u h hin hout; simp only [run] at h; injection h with h; subst h; exact absurd hin hout
+  | cons a as ih =>
+    intro s s' u h hin hout
+    simp only [run] at h
+    split at h
+    · rename_i s1 hs
+      by_cases h1 : File.sst u ∈ s1.files
+      · obtain ⟨pre, i, answers, post, sm, x, has, hpre, hx, hj⟩ := ih h h1 hout
+        refine ⟨a :: pre, i, answers, post, sm, x, by rw [has]; rfl, ?_, hx, hj⟩
+        simp only [run, hs]; exact hpre
+      · obtain ⟨i, answers, x, ha, hx, hj⟩ := step_removes_sst hs hin h1
+        exact ⟨[], i, answers, as, s, x, by rw [ha]; rfl, rfl, hx, hj⟩
+    · simp at h
+
+/-- why a step may remove WAL file `v` -/
+def WalRemoval (s : State) (a : Act) (v : Wal) : Prop :=
+  (∃ i id wal, a = .ckpt i id wal ∧ wal.same v = true) ∨
+  (∃ i ids x, a = .retain i ids ∧ s.insts[i]? = some x ∧
+    ∃ c ∈ x.ckpts, keeps ids c = false ∧ ∃ w ∈ c.wals, w.same v = true)
+
+theorem step_removes_wal {s s' : State} {a : Act} {v : Wal} (h : step s a = some s')
+    (hin : File.wal v ∈ s.files) (hout : File.wal v ∉ s'.files) : WalRemoval s a v := by
+  cases a with
+  | openFresh r g n d => simp only [step] at h; injection h with h; subst h; exact absurd hin hout
+  | openFrom r g n ws id d =>
+    simp only [step] at h
+    split at h
+    · simp at h
+    · simp at h
+    · injection h with h; subst h; exact absurd hin hout
+  | jobDrop k =>
+    simp only [step] at h
+    split at h
+    · injection h with h; subst h; exact absurd hin hout
+    · simp at h
+  | flush i t =>
+    simp only [step] at h
+    split at h
+    · simp at h
+    · split at h
+      · injection h with h; subst h; exact absurd (List.mem_cons_of_mem _ hin) hout
+      · simp at h
+  | compact i rm add =>
+    simp only [step] at h
+    split at h
+    · simp at h
+    · split at h
+      · injection h with h; subst h; exact absurd (List.mem_append_right _ hin) hout
+      · simp at h
+  | ckpt i id wal =>
+    simp only [step] at h
+    split at h
+    · simp at h
+    · split at h
+      · injection h with h; subst h
+        cases hsm : wal.same v with
+        | true => exact Or.inl ⟨i, id, wal, rfl, hsm⟩
+        | false =>
+          refine absurd (List.mem_cons_of_mem _ (mem_clobber.mpr ⟨hin, ?_⟩)) hout
+          intro v' hv'; injection hv' with hv'; subst hv'; exact hsm
+      · simp at h
+  | retain i ids =>
+    simp only [step] at h
+    split at h
+    · simp at h
+    · rename_i x hx
+      split at h
+      · injection h with h; subst h
+        by_cases hex : ∃ w ∈ walsOf (droppedOf x.ckpts ids), w.same v = true
+        · obtain ⟨w, hw, hsm⟩ := hex
+          obtain ⟨c, hc, hwc⟩ := mem_walsOf.mp hw
+          have hd := mem_droppedOf.mp hc
+          exact Or.inr ⟨i, ids, x, rfl, hx, c, hd.1, hd.2, w, hwc, hsm⟩
+        · refine absurd (mem_rmWals.mpr ⟨hin, ?_⟩) hout
+          intro w hw v' hv'
+          injection hv' with hv'; subst hv'
+          cases hsm : w.same v with
+          | false => rfl
+          | true => exact absurd ⟨w, hw, hsm⟩ hex
+      · simp at h
+  | snap i =>
+    simp only [step] at h
+    split at h
+    · simp at h
+    · split at h
+      · injection h with h; subst h; exact absurd hin hout
+      · simp at h
+  | unsnap i k =>
+    simp only [step] at h
+    split at h
+    · simp at h
+    · split at h
+      · injection h with h; subst h; exact absurd hin hout
+      · simp at h
+  | crash i =>
+    simp only [step] at h
+    split at h
+    · simp at h
+    · split at h
+      · injection h with h; subst h; exact absurd hin hout
+      · simp at h
+  | release i =>
+    simp only [step] at h
+    split at h
+    · simp at h
+    · split at h
+      · injection h with h; subst h; exact absurd hin hout
+      · simp at h
+  | redeployFailed i =>
+    simp only [step] at h
+    split at h
+    · simp at h
+    · split at h
+      · injection h with h; subst h; exact absurd hin hout
+      · simp at h
+  | collect i u answers =>
+    have hx : ∃ x, s.insts[i]? = some x := by
+      simp only [step] at h
+      split at h
+      · simp at h
+      · rename_i x hx; exact ⟨x, hx⟩
+    obtain ⟨x, hx⟩ := hx
+    obtain ⟨_, hkeep, _, _⟩ := collect_effect hx h
+    exact absurd (hkeep _ hin (by intro he; cases he)) hout
+
+theorem run_removes_wal {as : List Act} : ∀ {s s' : State} {v : Wal}, run s as = some s' →
+    File.wal v ∈ s.files → File.wal v ∉ s'.files →
+    ∃ pre a post sm, as = pre ++ a :: post ∧ run s pre = some sm ∧ WalRemoval sm a v := by
+  induction as with
+  | nil => intro s s' v h hin hout; simp only [run] at h; injection h with h; subst h; exact absurd hin hout
+  | cons a as ih =>
+    intro s s' v h hin hout
+    simp only [run] at h
+    split at h
+    · rename_i s1 hs
+      by_cases h1 : File.wal v ∈ s1.files
+      · obtain ⟨pre, b, post, sm, has, hpre, hw⟩ := ih h h1 hout
+        refine ⟨a :: pre, b, post, sm, by rw [has]; rfl, ?_, hw⟩
+        simp only [run, hs]; exact hpre
+      · exact ⟨[], a, as, s, rfl, rfl, step_removes_wal hs hin h1⟩
+    · simp at h
 
 end Rxn.Files
